@@ -18,7 +18,7 @@ import sys
 from ..runner import BaseCheck
 from ..oracle import canon, outcome, stable_text
 from ..gen import exprs as G
-from .. import env, hx
+from .. import env, hx, probe
 from . import c08 as C08, c10 as C10, c01 as C01
 
 NONDET = ('NOW', 'TODAY', 'RAND', 'RANDBETWEEN')
@@ -131,7 +131,7 @@ class Check(BaseCheck):
                    'returning a host list unchanged is aliasing, not mutation; growth during the first two passes is warm-up',
                    '"unbounded repetition counts" is restated as: no growth in every one of R passes (R = 8 quick / 30 thorough) over a corpus of K formulas')
 
-    NO_AMBIENT = ('order',)      # its shards are compared with each other: they differ in evaluation order and hash seed only
+    NO_AMBIENT = ('order', 'ambient_reads')      # its shards are compared with each other: they differ in evaluation order and hash seed only
 
     def plan(self, tier, seed):
         q = tier == 'quick'
@@ -142,6 +142,8 @@ class Check(BaseCheck):
         for k in range(4 if q else 8):
             # ... and under different string-hash seeds: what a set or dict of names happens to yield first is not part of the formula
             specs.append({'campaign': 'order', 'seed': seed, 'perm': k, 'per_function': 14 if q else 60, 'hashseed': [0, 1, 4242, 31337, 7, 99, 123456789, 2][k % 8]})
+        for i in range(4):
+            specs.append({'campaign': 'ambient_reads', 'seed': seed, 'per_function': 14 if q else 60, 'i': i, 'k': 4})
         for i in range(4):
             specs.append({'campaign': 'retention_each', 'i': i, 'k': 4, 'N': 150 if q else 600})
         for i in range(8):
@@ -468,6 +470,130 @@ class Check(BaseCheck):
 
     def _per_function_of(self, merged):
         return merged['series'].get('order.per_function', 14)
+
+    # ------------------------------------------------------------------ (a'') nothing but NOW/TODAY reads the clock, nothing but RAND/RANDBETWEEN the random source
+    class ShiftedClock(object):
+        """For the duration of the block, the modules of the library under test and of dateutil see a clock that is `shift` ahead:
+        their module-level names bound to the datetime module / the datetime and date classes / the time module are rebound to
+        stand-ins that differ from the real ones in now(), utcnow(), today(), time() only (instances are still ordinary datetimes)."""
+
+        def __init__(self, shift):
+            import datetime as real, time as rtime, types
+            self.shift = shift
+            rdt, rd = real.datetime, real.date
+
+            class Meta(type(rdt)):
+                def __instancecheck__(cls, x):
+                    return isinstance(x, rdt if cls.__name__ == 'datetime' else rd)
+
+                def __subclasscheck__(cls, c):
+                    return issubclass(c, rdt if cls.__name__ == 'datetime' else rd)
+            ns = {'__new__': lambda cls, *a, **k: rdt(*a, **k), 'now': classmethod(lambda cls, tz=None: rdt.now(tz) + shift),
+                  'utcnow': classmethod(lambda cls: rdt.utcnow() + shift), 'today': classmethod(lambda cls: rdt.today() + shift)}
+            self.dt = Meta('datetime', (rdt,), ns)
+            self.d = Meta('date', (rd,), {'__new__': lambda cls, *a, **k: rd(*a, **k), 'today': classmethod(lambda cls: (rdt.today() + shift).date())})
+            self.mod = types.ModuleType('datetime')
+            self.mod.__dict__.update({k: v for k, v in vars(real).items() if not k.startswith('__')})
+            self.mod.datetime, self.mod.date = self.dt, self.d
+            self.tmod = types.ModuleType('time')
+            self.tmod.__dict__.update({k: v for k, v in vars(rtime).items() if not k.startswith('__')})
+            secs = shift.total_seconds()
+            self.tmod.time = lambda: rtime.time() + secs
+            self.tmod.time_ns = lambda: rtime.time_ns() + int(secs * 1e9)
+            self.tmod.localtime = lambda *a: rtime.localtime(*(a or (rtime.time() + secs,)))
+            self.tmod.gmtime = lambda *a: rtime.gmtime(*(a or (rtime.time() + secs,)))
+            self.real, self.rtime, self.rdt, self.rd = real, rtime, rdt, rd
+            self.undo = []
+
+        def __enter__(self):
+            roots = (os.path.join(env.REPO, 'hotxlfp') + os.sep, os.sep + 'dateutil' + os.sep)
+            for mod in list(sys.modules.values()):
+                fn = getattr(mod, '__file__', None) or ''
+                if not (fn.startswith(roots[0]) or roots[1] in fn):
+                    continue
+                for k, v in list(vars(mod).items()):
+                    new = self.mod if v is self.real else (self.dt if v is self.rdt else (self.d if v is self.rd else (self.tmod if v is self.rtime else None)))
+                    if new is not None:
+                        self.undo.append((mod, k, v))
+                        setattr(mod, k, new)
+            return self
+
+        def __exit__(self, *exc):
+            for mod, k, v in self.undo:
+                setattr(mod, k, v)
+            del self.undo[:]
+            return False
+
+    def c_ambient_reads(self, spec, rec):
+        import datetime
+        import random
+        spy = probe.AmbientReads().start()
+        if not spy.active:
+            rec.inconcl('the CALL-event spy could not be started')
+            return
+        try:
+            p = build(Bindings(), False)
+            fs = [f for k, f in enumerate(self.order_formulas(spec['seed'], spec['per_function'])) if k % spec['k'] == spec['i']]
+            texts = ['March 2020', '5 March', '10:30', '2020-02-29', 'Feb 29', '12/25', 'Monday', '2020', '1-2', 'Sept', '23:59:59', '2021-W05', 'Tue 3pm', '31.12.', 'noon', 'today', 'now', '7 pm']
+            from hotxlfp import formulas
+            if spec['i'] == 0:
+                for fn in formulas.supported():
+                    for t in texts:
+                        fs += ['%s("%s")' % (fn, t), '%s("%s",1)' % (fn, t), '%s(1,"%s")' % (fn, t), '%s("%s","%s")' % (fn, t, texts[0])]
+                # aggregates over lists long enough for an implementation to switch algorithm
+                p.set_variable('v_long', [(k * 37) % 101 for k in range(60)])
+                p.set_variable('v_longer', [(k * 53) % 1009 / 4.0 for k in range(700)])
+                for fn in formulas.supported():
+                    fs += ['%s(v_long)' % fn, '%s(v_long,3)' % fn, '%s(v_longer,20)' % fn, '%s(v_long,v_long)' % fn, '%s(v_long,">50")' % fn]
+                for t in texts:
+                    fs += ['"%s"+0' % t, '1+"%s"' % t, '"%s"-"%s"' % (t, texts[3]), '"%s"<DATE(2020,1,1)' % t, '"%s"=43891' % t, '"%s"&""' % t, '-"%s"' % t, '{"%s"}+1' % t]
+            shifts = [datetime.timedelta(days=1, hours=1), datetime.timedelta(days=40, hours=13), datetime.timedelta(days=400, minutes=7)]
+            for f in fs:
+                up = f.upper()
+                volatile_clock = 'NOW' in up or 'TODAY' in up
+                volatile_rand = 'RAND' in up
+                spy.reset()
+                state = random.getstate()
+                first = outcome(p.parse(f))
+                rec.case()
+                reads = list(spy.hits)
+                if random.getstate() != state and not volatile_rand:
+                    rec.violation('C02/evaluation-without-RAND-or-RANDBETWEEN-advances-the-random-source:' + f.split('(')[0][:16], formula=f, outcome=first)
+                    random.setstate(state)
+                rec.count('evaluations_spied_on')
+                if not reads:
+                    continue
+                rec.count('clock_reads_seen', len(reads))
+                for r in reads:
+                    rec.cov('clock_read_by', r[1] + ':' + r[2])
+                if volatile_clock:
+                    continue
+                # the clock was read by a formula that has no business with it: does the outcome depend on what it read?
+                rec.count('clock_reads_by_formulas_without_NOW_or_TODAY')
+                # (the stand-in clock must be neutral for this formula: the same outcome with a shift of nothing, else no verdict)
+                try:
+                    with self.ShiftedClock(datetime.timedelta(0)):
+                        neutral = outcome(p.parse(f))
+                except Exception:
+                    neutral = None
+                if neutral != first:
+                    rec.count('stand_in_clock_not_neutral_no_verdict')
+                    continue
+                for sh in shifts:
+                    try:
+                        with self.ShiftedClock(sh):
+                            again = outcome(p.parse(f))
+                    except Exception as e:
+                        rec.count('shifted_clock_rerun_failed.' + type(e).__name__)
+                        continue
+                    rec.case()
+                    if again != first:
+                        rec.violation('C02/outcome-depends-on-the-clock-without-NOW-or-TODAY:' + f.split('(')[0][:16], formula=f, outcome=first, with_the_clock_ahead_by=str(sh), outcome_then=again, clock_read_at=reads[:2])
+                        break
+                rec.nt(('clock', f))
+        finally:
+            spy.stop()
+        rec.sample({'formula': 'DAY("March 2020")', 'what': 'clock reads are spied on (sys.monitoring CALL events); a formula without NOW/TODAY that read the clock is re-evaluated with the clock 1, 40 and 400 days ahead'})
 
     # ------------------------------------------------------------------ (c) retention
     def c_retention(self, spec, rec):
